@@ -12,6 +12,7 @@ mod fam_history;
 mod fam_engine;
 mod fam_ref;
 mod fam_pgn;
+mod fam_lichess;
 mod gen;
 include!("families.rs");
 
